@@ -98,7 +98,7 @@ PROPS = {
                 rule='NOTEFREE programs: parent-child-grandchild(+sibling,+second grandchild), 2..4 threads notify / poll / timed wait / new-child / free with a harness gate that lets a note be freed only after the other threads\' operations on that same note completed; oracle = no deadlock/livelock, no access to freed memory, final adoption check; non-trivial = a free overlapped a notify/free/create on a directly related note; distinct = distinct (program hash, realized trace hash)'),
     'C10': dict(num=10, sim=[('CTR', 1)], quick=300000, thorough=2000000, flavours_thorough=['gcc_new', 'c11', 'cpp11'],
                 rule='CTR programs: initial value 0..3 + prologue increments, 2..4 threads add(-1) / add(0) / value / wait / wait_n; oracle = linearizability of returned values against an integer, wait results against the value history, release at zero; non-trivial = a wait was in progress when the zeroing decrement started, or >=2 waiters were queued at zero; distinct = distinct (program hash, realized trace hash)'),
-    'C11': dict(num=11, sim=[(f, 1) for f in ('WAITN', 'MON', 'NOTE', 'WAITN', 'MON', 'WAITN', 'MON', 'NOTE', 'WAITN', 'MON', 'MON', 'WAITN', 'NOTE', 'MON', 'WAITN', 'MON')], quick=300000, thorough=2000000, flavours_thorough=['gcc_new', 'c11', 'cpp11'],
+    'C11': dict(num=11, sim=[(f, 1) for f in ('WAITN', 'MON', 'NOTE', 'MON', 'WAITN', 'MON', 'WAITN', 'MON', 'NOTE', 'MON', 'WAITN', 'MON', 'WAITN', 'MON', 'WAITN', 'MON')], quick=500000, thorough=2000000, flavours_thorough=['gcc_new', 'c11', 'cpp11'],
                 rule='WAITN programs: 1..2 nsync_wait_n callers over 1..5 objects (note / counter / cv / logging probe waitable; stack and heap bookkeeping), actors making objects ready before/during/after registration, deadlines past/future/none, with and without a logging mutex; MON programs with nsync_wait_n on a cv; non-trivial = a make-ready operation overlapped a call that lists the object; distinct = distinct (program hash, realized trace hash)'),
     'C12': dict(num=12, level='fault_enumeration', sim=[('SEM', 1)], quick=60000, thorough=1500000, flavours_thorough=['gcc_new', 'cpp11'],
                 rule='SEM programs: the real nsync_semaphore_futex.c on the modelled futex; one waiter with a generated sequence of P / timed P, 1..2 posters, clock moves and either a generated vector of up to 8 injected futex faults (EINTR, EAGAIN, premature ETIMEDOUT, spurious 0) or, for one case in five, EVERY placement of up to 2 faults over the first 6 futex waits x 3 kinds (154 executions of that program and schedule; evaluations counts executions); non-trivial = a fault was consumed, the waiter blocked, or a CAS on the count failed (post landed between load and futex call); distinct = distinct (program hash incl. fault vector, realized trace hash)'),
